@@ -136,23 +136,20 @@ func encMessage(m pref.Message) string {
 			fmt.Fprintf(&sb, ",S%d:%s,%s", fd.Number(), fd.Name(), encValue(fd.Kind(), f.v))
 		}
 	}
-	// unknown fields, split into wire records
-	var recs []string
+	// unknown fields: the RAW bytes; the model cuts them into records itself (its model of
+	// protowire.ConsumeField). Bytes that do not parse are outside the model and never sent here.
+	var raw []byte
 	if m.IsValid() {
-		b := []byte(m.GetUnknown())
-		for len(b) > 0 {
-			num, _, n := protowire.ConsumeField(b)
+		raw = []byte(m.GetUnknown())
+		for b := raw; len(b) > 0; {
+			_, _, n := protowire.ConsumeField(b)
 			if n < 0 {
 				panic("malformed unknown fields in generated message")
 			}
-			recs = append(recs, fmt.Sprintf("%d:%s", num, hex.EncodeToString(b[:n])))
 			b = b[n:]
 		}
 	}
-	fmt.Fprintf(&sb, ",%d", len(recs))
-	for _, r := range recs {
-		sb.WriteString("," + r)
-	}
+	sb.WriteString(",X" + hex.EncodeToString(raw))
 	return sb.String()
 }
 
